@@ -31,6 +31,8 @@ struct State {
     /// forced overlap of a voting thread with the shard workers: a voting job waits at its start until some worker
     /// is inside a scan (under the shard lock), and that worker stays there for a while
     overlap: bool,
+    /// every passage of this site sleeps for so many microseconds (a slow voting thread, a slow worker)
+    slow_site: Option<(&'static str, u64)>,
     voters_waiting: u32,
     scans_parked: u32,
 }
@@ -78,6 +80,12 @@ impl Ctl {
         };
         if d > 0 {
             std::thread::sleep(Duration::from_micros(d));
+        }
+        let slow = self.st.lock().unwrap().slow_site;
+        if let Some((s, us)) = slow {
+            if s == site {
+                std::thread::sleep(Duration::from_micros(us));
+            }
         }
         let mut st = self.st.lock().unwrap();
         if st.overlap {
@@ -171,6 +179,9 @@ impl Ctl {
     /// Forced overlap (batch trackers): every voting job waits (up to 30 ms) at `v.job.start` until a shard worker is
     /// inside a distance scan, i.e. holds its shard lock; a worker that finds a voting job waiting stays inside its scan
     /// for 15 ms.  What the voting thread reads while the workers are busy must be what it reads when they are idle.
+    pub fn set_slow_site(&self, site: &'static str, us: u64) {
+        self.st.lock().unwrap().slow_site = Some((site, us));
+    }
     pub fn set_overlap(&self) {
         self.st.lock().unwrap().overlap = true;
     }
